@@ -203,6 +203,7 @@ func runHonest(t *rapid.T, c runCfg, extra func(w *chainsim.World, m *chainsim.M
 	if c.forkchoice {
 		fm := chainsim.NewForkChoiceMonitor(w, m, m.Report)
 		w.S.OnAdversaryBlock = fm.OnByzantineBlock
+		fm.StartProbes(3 * time.Second)
 	}
 	if c.fuzz > 0 {
 		chainsim.NewFuzzPeer(w, m, c.fuzz)
